@@ -1048,7 +1048,7 @@ class Outcome:
 
 def run_handshake(kex, client=None, server=None, edits=(), trust='known',
                   server_hostkeys=('ssh-ed25519',), client_hostkey_algs=None,
-                  run_command=True, mitm_family=None):
+                  run_command=True, mitm_family=None, entry='connect'):
     """One connection attempt.
 
     client/server: dict with optional kex_algs, encryption_algs, mac_algs,
@@ -1080,6 +1080,9 @@ def run_handshake(kex, client=None, server=None, edits=(), trust='known',
     o.client_ok = False
     o.echo = None
     o.ran_command = run_command
+    o.entry = entry
+    o.reported = False
+    o.reported_key = None
     o.hung = False
     del _kex_log[:]
 
@@ -1125,6 +1128,18 @@ def run_handshake(kex, client=None, server=None, edits=(), trust='known',
         state['acc'] = await asyncssh.listen(
             '127.0.0.1', PORT, server_factory=Server, server_host_keys=keys,
             process_factory=handler, **server)
+        if entry == 'hostkey':
+            # the other API entry point that reports something about the
+            # server: asyncssh.get_server_host_key()
+            opts = asyncssh.SSHClientConnectionOptions(
+                config=None, **{k: v for k, v in client.items()
+                                if k != 'kex_algs'})
+            key = await asyncssh.get_server_host_key(
+                '127.0.0.1', PORT, kex_algs=client['kex_algs'],
+                config=None, options=opts, **ckw)
+            o.reported = True
+            o.reported_key = key.public_data if key is not None else None
+            return None
         conn = await asyncssh.connect(
             '127.0.0.1', PORT, known_hosts=kh, config=None, client_keys=None,
             username='u', **client, **ckw)
